@@ -10,7 +10,7 @@ for d in sorted(glob.glob('/verif/seeded/*')):
     if not what and os.path.exists(f'{d}/README.md'):
         txt=open(f'{d}/README.md').read()
         what=' '.join(txt.split())[:0]
-    rows.append((m['id'], m['property'], m.get('origin','sub-agent'), m.get('summary','(see README.md)'), m.get('needs',''), 'yes' if m.get('kept') else 'no', ('caught: '+(m.get('check_with_patch',{}).get('first') or '').replace('--- violation ','').replace(' ---','')[:110]) if m.get('detected') else 'MISSED'))
+    rows.append((m['id'], m['property'], m.get('origin','sub-agent'), m.get('summary','(see README.md)'), m.get('needs',''), 'yes' if m.get('kept') else 'no', ((m.get('strengthened','')+' -> ') if m.get('strengthened') else '')+('caught: '+(m.get('check_with_patch',{}).get('first') or '').replace('--- violation ','').replace(' ---','')[:110]) if m.get('detected') else 'MISSED'))
 out=['### 13.3 Seeded changes and which check catches them\n',
  'Every change below compiles, passes the repository\'s 34 tests and comes with a demonstration that fails with it and passes without it (confirmed by `tools/confirm_seeds.py` in a scratch worktree; details in `seeded/<id>/meta.json`). "origin sub-agent" = written by an independent sub-agent that saw only the property text; "own" = written for this framework (reverted fixes and the mutations planned in section 12).\n',
  '| id | property | origin | change | needs to manifest | confirmed | `./check <property> quick` |','|---|---|---|---|---|---|---|']
